@@ -561,7 +561,7 @@ func (w *Worker) runPath(fn *ssa.Function, it workItem, fuel int64, exp *Explore
 					// math.Mod): the path stops there, like a run that used up its soft budget
 					res = PathResult{Kind: "done", Msg: "stopped at " + a.msg}
 				}
-				if a.kind == "deadlock" && strings.HasPrefix(a.msg, "all threads blocked") {
+				if a.kind == "deadlock" && (strings.HasPrefix(a.msg, "all threads blocked") || strings.Contains(a.msg, "held mutex")) {
 					// every thread of the harness is blocked in the code under test (a lock that is never
 					// released, a recursive read lock behind a queued writer, a send nobody receives): the
 					// calls never return. Reported as a violation with the blocked operations.
